@@ -22,7 +22,7 @@ def demo(path):
 
 
 def main():
-    src = sys.argv[1]
+    src = os.path.abspath(sys.argv[1])
     only = sys.argv[2:] 
     assert sh(f'git -C {ROOT} status --porcelain').stdout.strip() == '', '/repo not clean'
     rows = []
